@@ -25,6 +25,7 @@ encoding and (b) replay of counterexamples before anything is reported.
 from __future__ import annotations
 
 import math
+import os
 import sys
 import time as _time
 from fractions import Fraction
@@ -495,6 +496,7 @@ class Stats:
 
 
 QUERY_TIMEOUT_MS = 20000
+PARANOID = bool(os.environ.get("SYMX_PARANOID"))
 
 
 def _val_to_str(v) -> str:
@@ -762,8 +764,23 @@ class Ctx:
                 out[n] = z3.IntVal(s) if k != "real" else z3.RealVal(s)
         return out
 
+    def _paranoid(self, where):
+        """Self-check (SYMX_PARANOID=1): the carried model satisfies the path condition."""
+        if self.model is None:
+            return
+        for cj in self.pc:
+            if self._eval_bool(cj.e) is not True:
+                raise HarnessError("carried model violates the path condition after %s: %s"
+                                   % (where, str(cj.e)[:200]))
+
     # ----------------------------------------------------------------- branching
     def branch(self, sb: SymBool) -> bool:
+        r = self._branch(sb)
+        if PARANOID:
+            self._paranoid("branch")
+        return r
+
+    def _branch(self, sb: SymBool) -> bool:
         e = sb.e
         if z3.is_true(e):
             return True
@@ -829,6 +846,11 @@ class Ctx:
 
     # ----------------------------------------------------------------- assume / prove
     def assume(self, cond, tag="assume"):
+        self._assume(cond, tag)
+        if PARANOID and self.mode != "conc":
+            self._paranoid("assume")
+
+    def _assume(self, cond, tag="assume"):
         if self.mode == "conc":
             if not bool(cond):
                 raise PathInfeasible()
@@ -865,6 +887,11 @@ class Ctx:
         """Obligation: under the path condition ``cond`` holds for every value."""
         ob = {"name": name, "status": None}
         self.obligations.append(ob)
+        if self.mode != "conc" and len(self.decisions) < len(self.prefix):
+            # still replaying the forced prefix: this obligation was decided, under the
+            # very same path condition, on the path this one forked from
+            ob["status"] = "dup"
+            return True
         if self.mode == "conc":
             ob["status"] = "ok" if bool(cond) else "violated"
             if info is not None and ob["status"] == "violated":
@@ -924,6 +951,9 @@ class Ctx:
         error).  A symbolic counterexample is refined to one that violates the equality
         by a margin (1e-4 relative to the same scale) so that its float replay is
         meaningful; if no such model exists the raw one is kept."""
+        if self.mode != "conc" and len(self.decisions) < len(self.prefix):
+            self.obligations.append({"name": name, "status": "dup"})
+            return True
         if self.mode == "conc" or not (isinstance(a, SymReal) or isinstance(b, SymReal)):
             ok = _close(a, b, tol, scale)
             ob = {"name": name, "status": "ok" if ok else "violated"}
